@@ -332,9 +332,15 @@ inline std::shared_ptr<Buffer> LidarDriverImpl<T_PointCloud>::packetGet(size_t s
   std::shared_ptr<Buffer> pkt = free_pkt_queue_.pop();
   if (pkt.get() != NULL)
   {
+    RS_VERIF_EVENT(this, 'g', pkt.get(), 0);
     return pkt;
   }
 
+#ifdef RS_DRIVER_VERIF
+  pkt = std::make_shared<Buffer>(size);
+  RS_VERIF_EVENT(this, 'g', pkt.get(), 1);
+  return pkt;
+#endif
   return std::make_shared<Buffer>(size);
 }
 
@@ -352,6 +358,7 @@ inline void LidarDriverImpl<T_PointCloud>::packetPut(std::shared_ptr<Buffer> pkt
   size_t sz = pkt_queue_.push(pkt);
   if (sz > PACKET_POOL_MAX)
   {
+    RS_VERIF_EVENT(this, 'V', pkt.get(), sz);
     LIMIT_CALL(runExceptionCallback(Error(ERRCODE_PKTBUFOVERFLOW)), 1);
     pkt_queue_.clear();
   }
@@ -364,6 +371,7 @@ inline void LidarDriverImpl<T_PointCloud>::internalProcessPacket(std::shared_ptr
   static const uint8_t difop_id[] = {0xA5, 0xFF};
 
   // a packet shorter than the identifier must not be dispatched on what an earlier packet left in the buffer.
+  RS_VERIF_EVENT(this, 'd', pkt.get(), pkt->dataSize());
   uint8_t* id = pkt->data();
   if (pkt->dataSize() < sizeof(msop_id))
   {
@@ -380,6 +388,7 @@ inline void LidarDriverImpl<T_PointCloud>::internalProcessPacket(std::shared_ptr
     runPacketCallBack(pkt->data(), pkt->dataSize(), 0, true, false); // difop packet
   }
 
+  RS_VERIF_EVENT(this, 'e', pkt.get(), 0);
   free_pkt_queue_.push(pkt);
 }
 
